@@ -22,6 +22,7 @@ fn main() {
         "C02" => props::c02::run(&cfg),
         "C05" => props::c05::run(&cfg),
         "C09" => props::c09::run(&cfg),
+        "C16" => props::c16::run(&cfg),
         "C17" => props::c17::run(&cfg),
         "play" => tools::play_cmd(&args),
         "gen" => tools::gen_cmd(&cfg),
